@@ -51,6 +51,8 @@ def coerce(code, t, want):
     """value of static type t where `want` is expected: None / int into Optional[int]"""
     if want == "isolver" and t == "solver" and code == "new_solver":
         return "([] : list icon)", "isolver"          # a pysmt Solver that receives integer constraints
+    if isinstance(want, tuple) and want[0] == "res" and t == "bool" and code == "false":
+        return "PFalse", want           # `False` where "False or a value" is expected
     if want == "optint":
         if t == "none":
             return "None", "optint"
@@ -191,6 +193,10 @@ class X:
         if isinstance(c, int):
             return "(%d)%%Z" % c, "int", []
         if isinstance(c, str):
+            if self.ctx.consts.get("@strings"):
+                if '"' in c or "\\" in c:
+                    fail(e, "string constant with a quote or backslash")
+                return '("%s"%%string)' % c, "string", []
             return "tt", "str", []
         fail(e, "constant %r" % (c,))
 
@@ -220,11 +226,14 @@ class X:
         for k, x in zip(e.keys, e.values):
             kc, kt, kb = self.tx(k, env)
             vc, t, vb = self.tx(x, env)
-            if kt != "int":
+            if kt not in ("int", "string"):
                 fail(e, "dictionary literal with keys of type %r" % (kt,))
+            kts = kt if not items else (kts if kts == kt else fail(e, "mixed key types"))
             vt = unify(vt, t)
             items.append("(%s, %s)" % (kc, vc))
             binds += kb + vb
+        if items and kts == "string":
+            return "[" + "; ".join(items) + "]", ("sdict", vt), binds
         return "[" + "; ".join(items) + "]", ("dict", vt), binds
 
     def e_Tuple(self, e, env):
@@ -308,6 +317,10 @@ class X:
             if it != "int":
                 fail(e, "dict key of type %r" % (it,))
             return name, t[1], b + ib + [(name, "zdict_get %s %s" % (c, i), "cbind")]
+        if isinstance(t, tuple) and t[0] == "sdict":
+            if it != "string":
+                fail(e, "string-keyed dictionary with a key of type %r" % (it,))
+            return name, t[1], b + ib + [(name, "sdict_get %s %s" % (c, i), "cbind")]
         if isinstance(t, tuple) and t[0] == "wdict":
             if it != "world":
                 fail(e, "ranking-table key of type %r" % (it,))
@@ -355,6 +368,15 @@ class X:
         fail(e, "truth value of type %r" % (t,))
 
     def e_BoolOp(self, e, env):
+        if isinstance(e.op, ast.Or) and len(e.values) == 2:
+            # `x or default` as a value: None or d is d; a list or [] is the list itself
+            c0, t0, b0 = self.tx(e.values[0], env)
+            if t0 == "none":
+                if isinstance(e.values[1], ast.Dict) and not e.values[1].keys:
+                    return "(@nil (Z * unit))", ("dict", None), []      # None or {}: an empty dictionary whose use never fixes a value type
+                return self.tx(e.values[1], env)
+            if isinstance(t0, tuple) and t0[0] == "list" and isinstance(e.values[1], ast.List) and not e.values[1].elts:
+                return c0, t0, b0
         op = "&&" if isinstance(e.op, ast.And) else "||"
         parts = []
         binds = []
@@ -384,8 +406,11 @@ class X:
 
     def e_IfExp(self, e, env):
         c, b = self.truth(e.test, env)
-        a, ta = self.pure(e.body, env)
-        o, to = self.pure(e.orelse, env)
+        a, ta, ba = self.tx(e.body, env)
+        o, to, bo = self.tx(e.orelse, env)
+        if ba or bo:
+            nm = self.ctx.fresh()
+            return nm, unify(ta, to), b + [(nm, "if %s then %s else %s" % (c, wrap_binds(ba, "Next %s" % a), wrap_binds(bo, "Next %s" % o)), "cbind")]
         return "(if %s then %s else %s)" % (c, a, o), unify(ta, to), b
 
     def e_BinOp(self, e, env):
@@ -459,6 +484,8 @@ class X:
                 return "(%s <? %s)%%Z" % (r, l), "bool", b
             if isinstance(op, ast.GtE):
                 return "(%s <=? %s)%%Z" % (r, l), "bool", b
+        if tl == "bool" and tr == "bool" and isinstance(op, ast.Is) and isinstance(R, ast.Constant) and R.value in (True, False):
+            return "(Bool.eqb %s %s)" % (l, r), "bool", b      # x is False / x is True on a Boolean
         if tl == "bool" and tr == "bool" and isinstance(op, ast.Eq):
             return "(Bool.eqb %s %s)" % (l, r), "bool", b
         if tl == "bool" and tr == "bool" and isinstance(op, ast.NotEq):
@@ -476,6 +503,15 @@ class X:
         if isinstance(tr, tuple) and tr[0] in ("list", "set") and tr[1] == "int" and tl == "int" and isinstance(op, (ast.In, ast.NotIn)):
             c = "(zmem %s %s)" % (l, r)
             return (c if isinstance(op, ast.In) else "(negb %s)" % c), "bool", b
+        if isinstance(tr, tuple) and tr[0] == "sdict" and tl == "string" and isinstance(op, (ast.In, ast.NotIn)):
+            c = "(sdict_mem %s %s)" % (r, l)
+            return (c if isinstance(op, ast.In) else "(negb %s)" % c), "bool", b
+        if tr == ("dict", None) and tl == "string" and isinstance(op, (ast.In, ast.NotIn)):
+            # a dictionary the translator only knows as the empty literal {}: no key is in it
+            return ("false" if isinstance(op, ast.In) else "true"), "bool", b
+        if tl == "string" and tr == "string" and isinstance(op, (ast.Eq, ast.NotEq)):
+            c = "(String.eqb %s %s)" % (l, r)
+            return (c if isinstance(op, ast.Eq) else "(negb %s)" % c), "bool", b
         if isinstance(tr, tuple) and tr[0] == "wdict" and tl == "world" and isinstance(op, (ast.In, ast.NotIn)):
             c = "(wdict_mem %s %s)" % (r, l)
             return (c if isinstance(op, ast.In) else "(negb %s)" % c), "bool", b
@@ -839,6 +875,15 @@ class X:
                 return "(INot %s)" % c, "icon", b
             if name == "And" and t == ("list", "icon"):
                 return "(IAnd %s)" % c, "icon", b
+            if name == "And" and t == ("list", "form"):
+                return "(f_and_list %s)" % c, "form", b
+        if name in ("FALSE", "TRUE") and not e.args and not e.keywords:
+            return ("FBot" if name == "FALSE" else "FTop"), "form", []
+        if name == "dict" and len(e.args) == 1 and not e.keywords:
+            c, t, b = self.tx(e.args[0], env)
+            if isinstance(t, tuple) and t[0] == "dict":
+                return c, t, b          # a copy (values are immutable on the Coq side)
+            fail(e, "dict of %r" % (t,))
         if name == "dict" and not e.args and not e.keywords:
             return "[]", ("dict", None), []
         if name == "makeOptimizer" and not e.args and not e.keywords:
@@ -865,6 +910,14 @@ class X:
             if e.args:
                 fail(e, "Solver with positional arguments")
             return "new_solver", "solver", []
+        if name == "Conditional" and not e.args and {k.arg for k in e.keywords} == {"consequence", "antecedence", "textRepresentation"}:
+            kw = {k.arg: k.value for k in e.keywords}
+            c1, t1, b1 = self.tx(kw["consequence"], env)
+            c2, t2, b2 = self.tx(kw["antecedence"], env)
+            self.tx(kw["textRepresentation"], env)
+            if (t1, t2) != ("form", "form"):
+                fail(e, "Conditional of %r" % ((t1, t2),))
+            return "(mk_cond %s %s)" % (c1, c2), "cond", b1 + b2
         if name == "Conditional":
             if e.keywords or len(e.args) != 3:
                 fail(e, "Conditional(...) with other than three positional arguments")
@@ -925,6 +978,14 @@ class X:
                 fail(e, "narrowing of %r" % (t,))
             nm = self.ctx.fresh()
             return nm, "int", b + [(nm, "py_unopt %s" % c, "cbind")]
+        if name == "isinstance" and len(e.args) == 2 and isinstance(e.args[1], ast.Name) and e.args[1].id in ("FNode", "str", "list"):
+            c, t, b = self.tx(e.args[0], env)
+            kind = e.args[1].id
+            if t == "form":
+                return ("true" if kind == "FNode" else "false"), "bool", b
+            if isinstance(t, tuple) and t[0] == "res" and kind == "list":
+                return "(negb (is_pfalse %s))" % c, "bool", b
+            fail(e, "isinstance(_, %s) of %r" % (kind, t))
         if name == "isinstance" and len(e.args) == 2 and isinstance(e.args[1], ast.Name) and e.args[1].id == "int":
             c, t, b = self.tx(e.args[0], env)
             if t == "int":
@@ -1003,6 +1064,8 @@ class X:
             if kt != "world":
                 fail(e, "ranking-table key of type %r" % (kt,))
             return "(wdict_getopt %s %s)" % (c, kc), "optint", b + kb
+        if isinstance(t, tuple) and t[0] == "sdict" and f.attr == "items" and not e.args and not e.keywords:
+            return c, ("list", ("tuple", ("string", t[1]))), b
         if isinstance(t, tuple) and t[0] == "wdict" and f.attr == "items" and not e.args and not e.keywords:
             return c, ("list", ("tuple", ("world", t[1]))), b
         if isinstance(t, tuple) and t[0] == "dict" and not e.args and not e.keywords:
@@ -1079,6 +1142,8 @@ class X:
             if ft != "form":
                 fail(e, "eval of %r" % (ft,))
             return "(eval %s %s)" % (c, fc), "bool", b + fb
+        if t == "str" and f.attr == "replace" and len(e.args) == 2 and not e.keywords:
+            return "tt", "str", b        # text used for display only
         if t == "form" and not e.keywords:
             if f.attr == "is_symbol" and not e.args:
                 return "(f_is_symbol %s)" % c, "bool", b
@@ -1139,6 +1204,8 @@ def assigned(stmts):
             for x in t.elts:
                 tgt(x)
         elif isinstance(t, ast.Subscript) and isinstance(t.value, ast.Name):
+            add(t.value.id)
+        elif isinstance(t, ast.Attribute) and isinstance(t.value, ast.Name) and t.value.id != "self":
             add(t.value.id)
 
     def walk(ss):
@@ -1201,6 +1268,12 @@ def flatten_with(stmts, xp, env):
     """`with Solver(...) as s: body`  ==  `s = Solver(...); body` (leaving the block only releases the solver)"""
     out = []
     for s in stmts:
+        if (isinstance(s, ast.Try) and not s.orelse and not s.finalbody and len(s.handlers) == 1 and isinstance(s.handlers[0].type, ast.Name)
+                and s.handlers[0].type.id == "Exception" and len(s.handlers[0].body) == 1 and isinstance(s.handlers[0].body[0], ast.Raise)
+                and s.handlers[0].body[0].exc is None):
+            # try: body except Exception: raise   ==  body
+            out += flatten_with(s.body, xp, env)
+            continue
         if isinstance(s, ast.With):
             if len(s.items) != 1:
                 fail(s, "with several items")
@@ -1265,6 +1338,10 @@ class B:
             if isinstance(e.args[0], ast.Name) and is_mutable(te):
                 self.ctx.captured.add(e.args[0].id)
             return name, "(%s ++ [%s])" % (v(name), c), b, nt
+        if isinstance(t, tuple) and t[0] == "dict" and meth == "update" and len(e.args) == 1:
+            c, te, b = self.x.tx(e.args[0], env)
+            nt = unify(t, te)
+            return name, "(zdict_update %s %s)" % (v(name), c), b, nt
         if isinstance(t, tuple) and t[0] == "list" and meth == "extend" and len(e.args) == 1:
             c, te, b = self.x.tx(e.args[0], env)
             nt = unify(t, te)
@@ -1381,6 +1458,16 @@ class B:
                 if len(targets) != 1 or s.value is None:
                     fail(s, "multiple assignment targets")
                 t = targets[0]
+                if isinstance(t, ast.Attribute) and t.attr == "index" and isinstance(t.value, ast.Name) and env.get(t.value.id) == "cond":
+                    # cond.index = k: the conditional with that index (the object is local: created in this block)
+                    if t.value.id in self.ctx.captured:
+                        fail(s, "%s is mutated after it was stored elsewhere (aliasing)" % t.value.id)
+                    c, ty, b = self.x.tx(s.value, env)
+                    if ty != "int":
+                        fail(s, "index of type %r" % (ty,))
+                    binds_in(b)
+                    let(v(t.value.id), "(set_ckey %s %s)" % (v(t.value.id), c))
+                    continue
                 if isinstance(t, ast.Subscript):
                     slot = self.x.query_slot(t)
                     if slot is not None:
@@ -1557,6 +1644,12 @@ class B:
                         fail(s, "comprehension mutates its own variable")
                     env[name] = nt
                     let(v(name), "fold_left (fun %s %s => %s) %s %s" % (v(name), p, code, it, v(name)))
+                    continue
+                if isinstance(e, ast.Call) and isinstance(e.func, ast.Name) and e.func.id in self.ctx.table and not self.ctx.table[e.func.id].mutates \
+                        and not self.ctx.table[e.func.id].returns_state:
+                    # a function called for its exceptions only (validation): its value is dropped
+                    c, t, b = self.x.tx(e, env)
+                    binds_in(b)
                     continue
                 fail(s, "expression statement")
             # ---- with Solver(...) as s:   (flattened by flatten_with before the loop)
@@ -1770,6 +1863,17 @@ class B:
             binds_in(bk + b)
             let(v(nm), "(wdict_set %s %s %s)" % (v(nm), k, c))
             return
+        if isinstance(ty, tuple) and ty[0] == "sdict":
+            if nm in self.ctx.captured:
+                fail(s, "%s is mutated after it was stored elsewhere (aliasing)" % nm)
+            k, tk, bk = self.x.tx(t.slice, env)
+            c, tv, b = self.x.tx(s.value, env)
+            if tk != "string":
+                fail(s, "string-keyed dictionary with a key of type %r" % (tk,))
+            env[nm] = ("sdict", unify(ty[1], tv))
+            binds_in(bk + b)
+            let(v(nm), "(sdict_set %s %s %s)" % (v(nm), k, c))
+            return
         if not (isinstance(ty, tuple) and ty[0] == "dict"):
             fail(s, "subscript assignment on %r" % (ty,))
         if nm in self.ctx.captured:
@@ -1836,7 +1940,7 @@ class B:
 
 # ------------------------------------------------------------------------------------------------ driver
 COQ_TYPES = {"bool": "bool", "int": "Z", "form": "form", "cond": "cond", "solver": "solver", "str": "unit", "none": "unit",
-             "bb": "pybase", "deadline": "unit", "wcnf": "wcnf", "sclause": "sclause", "optimizer": "unit", "tseitin": "unit", "world": "world", "zopt": "zopt", "optint": "(option Z)", "preocf": "(wdict (option Z))", "preocf_s": "((wdict (option Z)) * (list Z))", "pool": "unit", "iterm": "iterm", "icon": "icon", "isolver": "(list icon)", "symidx": "symidx", "float": "unit"}
+             "bb": "pybase", "deadline": "unit", "wcnf": "wcnf", "sclause": "sclause", "optimizer": "unit", "tseitin": "unit", "world": "world", "zopt": "zopt", "optint": "(option Z)", "preocf": "(wdict (option Z))", "preocf_s": "((wdict (option Z)) * (list Z))", "string": "string", "pool": "unit", "iterm": "iterm", "icon": "icon", "isolver": "(list icon)", "symidx": "symidx", "float": "unit"}
 
 
 def coq_type(t):
@@ -1849,6 +1953,8 @@ def coq_type(t):
             return "(dict Z %s)" % coq_type(t[1])
         if t[0] == "wdict":
             return "(wdict %s)" % coq_type(t[1])
+        if t[0] == "sdict":
+            return "(list (string * %s))" % coq_type(t[1])
         if t[0] == "opt":
             return "(option %s)" % coq_type(t[1])
         if t[0] == "fn":
@@ -1878,10 +1984,10 @@ def find_function(tree, cls, name):
 def translate_function(tree, fn, table, consts):
     node = find_function(tree, fn.cls, fn.name)
     a = node.args
-    if a.vararg or a.kwarg or a.kwonlyargs or a.posonlyargs:
+    if a.vararg or a.kwarg or a.posonlyargs:
         raise Unsupported("%s: unsupported parameter kinds" % fn.name)
     declared = [p[0] for p in fn.params]
-    actual = [x.arg for x in a.args]
+    actual = [x.arg for x in a.args] + [x.arg for x in a.kwonlyargs]      # keyword-only parameters: passed by name at every call
     if fn.cls and not any(p[0] == "self" for p in fn.params):
         actual = actual[1:]
     if declared != actual:
@@ -1960,6 +2066,9 @@ def translate_function(tree, fn, table, consts):
     defaults = {}
     for arg, d in zip(a.args[len(a.args) - len(a.defaults):], a.defaults):
         defaults[arg.arg] = d
+    for arg, d in zip(a.kwonlyargs, a.kw_defaults):
+        if d is not None:
+            defaults[arg.arg] = d
     ctx = Ctx(fn, table, consts)
     xp = X(ctx)
     newparams = []
@@ -1973,7 +2082,12 @@ def translate_function(tree, fn, table, consts):
             except Unsupported:
                 c, t, b = None, None, []
             if c is not None and not b and p[1] not in ("deadline",):
-                unify(p[1], t)
+                try:
+                    unify(p[1], t)
+                except Unsupported:
+                    # the default (e.g. None) is outside the declared type: the generated function has no default here, every caller passes a value
+                    newparams.append((p[0], p[1]))
+                    continue
                 newparams.append((p[0], p[1], c))
                 continue
             if p[1] == "deadline":
@@ -2224,6 +2338,19 @@ TARGETS = [
                   ("@world_rej", "at_world_rej", ("wdict", ("set", "int"))), ("@ranking_function", "at_ranking_function", "preocf_s")],
            at_mut=[("_rank_cache", ("wdict", "int"))],
            locals_={"vMin": ("dict", ("list", TRIPLE)), "fMin": ("dict", ("list", TRIPLE))}),
+    ]),
+    dict(out="SrcDiag", file="inference/consistency_diagnostics.py", requires=["SrcCond", "SrcCons"], extra_imports=["PyStr"], consts={"@strings": True}, funcs=[
+        Fn("_parse_fact", "py_parse_fact", [("entry", "form")]),
+        Fn("_validate_fact_vars", "m_validate_fact_vars", [("signature", "str"), ("phi", "form")], ret="none", abstract=True),
+        Fn("facts_jointly_satisfiable", "py_facts_jointly_satisfiable", [("signature", "str"), ("facts", ("list", "form"))], ret="bool",
+           locals_={"formulas": ("list", "form")}),
+        Fn("build_fact_conditionals", "py_build_fact_conditionals", [("signature", "str"), ("facts", ("list", "form")), ("start_index", "int")],
+           locals_={"fact_conditionals": ("dict", "cond")}),
+        Fn("augment_belief_base_with_facts", "py_augment_belief_base_with_facts", [("bb", "bb"), ("facts", ("list", "form"))]),
+        Fn("_last_layer_size", "py_last_layer_size", [("partition", ("res", PART_OBJ))]),
+        Fn("consistency_diagnostics", "py_consistency_diagnostics",
+           [("belief_base", "bb"), ("extended", "bool"), ("uses_facts", "bool"), ("facts", ("list", "form")), ("solver", "str"), ("precomputed", "none"), ("on_inconsistent", "string")],
+           locals_={"diag": ("sdict", "bool"), "base_part_ext": ("res", PART_OBJ)}),
     ]),
     dict(out="SrcP", file="inference/p_entailment.py", requires=["SrcCond", "SrcCons"], funcs=[
         Fn("_inference", "py_PEntailment_inference", [("query", "cond"), ("weakly", "bool"), ("deadline", "deadline")],
